@@ -171,10 +171,16 @@ func (c *Conn) Read(p []byte) (int, error) {
 						max = m
 					}
 				}
-				k := copy(p[:max], s.data)
-				s.data = s.data[k:]
-				if len(s.data) == 0 {
-					in.segs = in.segs[1:]
+				// like a kernel receive buffer: everything that has arrived is handed over at once
+				k := 0
+				for k < max && len(in.segs) > 0 && !in.segs[0].at.After(now) {
+					s := &in.segs[0]
+					m := copy(p[k:max], s.data)
+					s.data = s.data[m:]
+					k += m
+					if len(s.data) == 0 {
+						in.segs = in.segs[1:]
+					}
 				}
 				in.queued -= k
 				sig(in.wwake)
